@@ -231,10 +231,13 @@ func runC03SQL(env *Env, rc *RunCtx, c *Case, mkReq func() []*Request, base *Exe
 	} else {
 		ks = samplePositions(rc.CaseTape, M, lim)
 	}
-	kinds := []L2Fault{L2IO, L2Busy, L2BadConn, L2Ctx}
+	kinds := []L2Fault{L2IO, L2Busy, L2BadConn, L2Ctx, L2Down}
 	for _, k := range ks {
 		for ki, kind := range kinds {
-			e := 5000 + (k-1)*len(kinds) + ki
+			e := 5000 + (k-1)*4 + ki
+			if ki >= 4 { // numbering of the first four kinds is kept for earlier replay files
+				e = 3_000_000 + k
+			}
 			if rc.SkipExec(e) {
 				continue
 			}
